@@ -52,6 +52,7 @@ struct State {
     switches: u64,
     switches_inside_call: u64,
     crashes_fired: u64,
+    stall_handoffs: u64,
     abort: Option<&'static str>,
 }
 
@@ -67,12 +68,16 @@ pub struct SchedReport {
     pub switches: u64,
     pub switches_inside_call: u64,
     pub crashes_fired: u64,
+    pub stall_handoffs: u64,
     pub log_hash: u64,
     pub log: Vec<String>,
     pub abort: Option<&'static str>,
 }
 
 const STALL: Duration = Duration::from_secs(30);
+/// The baton holder made no scheduling progress for this long: assume it is blocked on something
+/// outside the seams (a real lock owned by a parked thread) and let a parked thread run as well.
+const HANDOFF: Duration = Duration::from_secs(3);
 
 impl Sched {
     pub fn new(n: usize, plan: &SchedPlan, record: bool) -> Self {
@@ -102,6 +107,7 @@ impl Sched {
                 switches: 0,
                 switches_inside_call: 0,
                 crashes_fired: 0,
+                stall_handoffs: 0,
                 abort: None,
             }),
             cv: Condvar::new(),
@@ -181,6 +187,19 @@ impl Sched {
                 waited = Duration::ZERO;
             } else {
                 waited += t0.elapsed();
+                if waited > HANDOFF
+                    && s.current != Some(tid)
+                    && s.status[tid] == Status::Runnable
+                    && s.started == self.n
+                {
+                    // Take the baton: the previous holder keeps running (it is blocked anyway)
+                    // and queues up again at its next scheduling point.
+                    s.stall_handoffs += 1;
+                    s.hasher.str("STALL-HANDOFF");
+                    s.current = Some(tid);
+                    self.cv.notify_all();
+                    return;
+                }
                 if waited > STALL {
                     s.abort = Some("HARNESS-STALL: no progress for 30 s (a real lock held across a scheduling point?)");
                     self.cv.notify_all();
@@ -200,7 +219,11 @@ impl Sched {
             drop(s);
             std::panic::panic_any(Sentinel::Abort);
         }
-        debug_assert_eq!(s.current, Some(tid));
+        if s.current != Some(tid) {
+            // The baton was taken away while this thread was blocked outside the seams.
+            self.wait_for_baton(s, tid);
+            s = self.lock();
+        }
         s.step += 1;
         s.per_thread[tid] += 1;
         let step = s.step;
@@ -257,6 +280,7 @@ impl Sched {
             switches: s.switches,
             switches_inside_call: s.switches_inside_call,
             crashes_fired: s.crashes_fired,
+            stall_handoffs: s.stall_handoffs,
             log_hash: s.hasher.0,
             log: s
                 .log
